@@ -175,40 +175,53 @@ Proof.
     + apply IH. intros v Hv. apply (N v). right. exact Hv.
 Qed.
 
+Lemma In_combine_l_ex {A B} (a : list A) : forall (b : list B) x, len b = len a -> In x a -> exists y, In (x, y) (combine a b).
+Proof.
+  induction a as [|u a IH]; intros b x L Hin; [destruct Hin|]. destruct b as [|y b]; [discriminate|].
+  cbn [combine In]. destruct Hin as [->|Hin]; [eauto|].
+  destruct (IH b x ltac:(cbn [len List.length] in L; unfold len in *; lia) Hin) as (y' & H). eauto.
+Qed.
+
 (* ---------- side conditions ---------- *)
+(* the frame: everything but the objects and what the rows say about them *)
+Record wf_xframe (objs : list (oid * obj)) (root : oid) (X : xlayout) : Prop := {
+  xf_garbage : find_tag kw_pdf (xl_garbage X ++ kw_pdf) = Some (len (xl_garbage X));
+  (* legal widths; the template's rows are representable; every offset fits the second field *)
+  xf_wide : wide (xl_w0 X) (xl_w1 X) (xl_w2 X);
+  xf_parts : wf_parts (xl_w0 X) (xl_w1 X) (xl_w2 X) (xl_parts X);
+  xf_small : (N.of_nat (len (xbody objs X)) < 256 ^ N.of_nat (xl_w1 X))%N;
+  (* the stream object: legally written (any spelling of the dictionary), /Length = the size of the rows *)
+  xf_xobj : wf_obj_k (fun _ => True)
+              (xl_id X, OStream (xl_dict X) (render_parts (xl_w0 X) (xl_w1 X) (xl_w2 X) (xl_parts X))) (xl_lo X);
+  (* the dictionary declares /Type /XRef, /Size, /W, /Index = the partition, no filter; /Root = the root; no /Prev *)
+  xf_dict : exists size, xref_dict_ok (xl_dict X) size (Some (parts_index (xl_parts X))) (xl_w0 X) (xl_w1 X) (xl_w2 X);
+  xf_root : dict_get (xl_dict X) key_Root = Some (ORef (fst root) (snd root));
+  xf_prev : dict_usize (xl_dict X) key_Prev = None;
+  xf_seol : plain_ws (xl_seol X) /\ xl_seol X <> [];
+  xf_sx : 1 <= xl_sxw X /\ (N.of_nat (len (xbody objs X)) < 10 ^ N.of_nat (xl_sxw X))%N /\
+          (N.of_nat (len (xbody objs X)) < i64_lim)%N;
+  xf_eeol : plain_ws (xl_eeol X);
+  xf_tail : Forall (fun b => b <> 37%N) (xl_tail X) }.
+
 Record wf_xlayout (d : cdoc) (X : xlayout) : Prop := {
-  wx_garbage : find_tag kw_pdf (xl_garbage X ++ kw_pdf) = Some (len (xl_garbage X));
+  wx_frame : wf_xframe (d_objs d) (d_root d) X;
   wx_len : len (xl_objs X) = len (d_objs d);
   wx_objs : Forall (fun p => wf_obj (fst p) (snd p)) (combine (d_objs d) (xl_objs X));
-  (* legal widths; the template's rows are representable; every offset fits the second field *)
-  wx_wide : wide (xl_w0 X) (xl_w1 X) (xl_w2 X);
-  wx_parts : wf_parts (xl_w0 X) (xl_w1 X) (xl_w2 X) (xl_parts X);
-  wx_small : (N.of_nat (len (xbody (d_objs d) X)) < 256 ^ N.of_nat (xl_w1 X))%N;
   (* the rows mention every number at most once; in-use rows = the document's identifiers; no compressed objects *)
   wx_nums : NoDup (List.map xe_obj (parts_ents (xl_parts X)));
   wx_inuse : forall e, In e (parts_ents (xl_parts X)) -> inuse e = true -> In (xe_obj e, xe_gen e) (List.map fst (d_objs d));
   wx_all : forall id, In id (List.map fst (d_objs d)) ->
                       exists e, In e (parts_ents (xl_parts X)) /\ inuse e = true /\ (xe_obj e, xe_gen e) = id;
-  wx_nostm : forall e, In e (parts_ents (xl_parts X)) -> forall a b, xe_st e <> XrefTab.XInStream a b;
-  (* the stream object: legally written (any spelling of the dictionary), /Length = the size of the rows *)
-  wx_xobj : wf_obj_k (fun _ => True)
-              (xl_id X, OStream (xl_dict X) (render_parts (xl_w0 X) (xl_w1 X) (xl_w2 X) (xl_parts X))) (xl_lo X);
-  (* the dictionary declares /Type /XRef, /Size, /W, /Index = the partition, no filter; /Root = the root; no /Prev *)
-  wx_dict : exists size, xref_dict_ok (xl_dict X) size (Some (parts_index (xl_parts X))) (xl_w0 X) (xl_w1 X) (xl_w2 X);
-  wx_root : dict_get (xl_dict X) key_Root = Some (ORef (fst (d_root d)) (snd (d_root d)));
-  wx_prev : dict_usize (xl_dict X) key_Prev = None;
-  wx_seol : plain_ws (xl_seol X) /\ xl_seol X <> [];
-  wx_sx : 1 <= xl_sxw X /\ (N.of_nat (len (xbody (d_objs d) X)) < 10 ^ N.of_nat (xl_sxw X))%N /\
-          (N.of_nat (len (xbody (d_objs d) X)) < i64_lim)%N;
-  wx_eeol : plain_ws (xl_eeol X);
-  wx_tail : Forall (fun b => b <> 37%N) (xl_tail X) }.
+  wx_nostm : forall e, In e (parts_ents (xl_parts X)) -> forall a b, xe_st e <> XrefTab.XInStream a b }.
 
-Section XrefStream.
-  Variables (rel : bool) (d : cdoc) (X : xlayout).
-  Hypothesis Wd : wf_doc d.
-  Hypothesis Wx : wf_xlayout d X.
+(* ---------- the frame: objects found at their offsets, the stream object, the abstraction ---------- *)
+Section XFrame.
+  Variables (rel : bool) (objs : list (oid * obj)) (root : oid) (X : xlayout).
+  Hypothesis Wf : wf_xframe objs root X.
+  Hypothesis Hlen : len (xl_objs X) = len objs.
+  Hypothesis Hwf : Forall (fun p => wf_obj_k (fun _ => True) (fst p) (snd p)) (combine objs (xl_objs X)).
+  Hypothesis ND : NoDup (List.map fst objs).
 
-  Let objs := d_objs d.
   Let Bd := xbody objs X.
   Let V := render_xrefstm_view objs X.
   Let ot := xot objs X.
@@ -231,78 +244,123 @@ Section XrefStream.
   Proof.
     intros id o H. apply off_get_in in H. unfold ot, xot in H. apply in_combine_r in H.
     apply in_map_iff in H as (k & <- & H). apply offsets_bound in H.
-    pose proof (wx_small _ _ Wx) as Hb. unfold xbody in Hb. rewrite len_app in Hb. fold objs in Hb. lia.
+    pose proof (xf_small _ _ _ Wf) as Hb. unfold xbody in Hb. rewrite len_app in Hb. lia.
   Qed.
 
-  Lemma x_obj_found x : In x objs ->
+  (* every written object is found, at the offset the rows give for it, as what [obj_item] makes of it *)
+  Lemma fobj_found x : In x objs ->
     exists o nx, off_get ot (fst x) = Some (N.of_nat o) /\ (N.of_nat o <? flen)%N = true /\
-                 Loader.find f (N.of_nat o) = Some (IObj (fst x) (snd x), nx) /\ simple (IObj (fst x) (snd x)).
+                 Loader.find f (N.of_nat o) = Some (obj_item rel (fst x) (snd x), nx) /\ simple (IObj (fst x) (snd x)).
   Proof.
     intros Hin.
-    destruct (chunks_located objs (xl_objs X) (xhead X) (xobj ++ post) (wx_len _ _ Wx) x Hin) as (lo & o & R & I1 & I2 & A).
-    assert (W : wf_obj x lo) by exact (In_combine_Forall _ _ _ _ (wx_objs _ _ Wx) I1).
+    destruct (chunks_located objs (xl_objs X) (xhead X) (xobj ++ post) Hlen x Hin) as (lo & o & R & I1 & I2 & A).
+    assert (W : wf_obj_k (fun _ => True) x lo) by exact (In_combine_Forall _ _ _ _ Hwf I1).
     assert (EV : xhead X ++ concat (List.map (fun p => render_obj (fst p) (snd p)) (combine objs (xl_objs X))) ++ xobj ++ post = V).
     { rewrite Vx_shape. unfold Bd, xbody, xchunks. rewrite <- app_assoc. reflexivity. }
     rewrite EV in A.
-    destruct (item_at_object rel V o x lo R A W) as (nx & EI).
+    destruct (item_at_fileobj _ rel V o x lo R A W) as (nx & EI).
     assert (Lo : o < len V).
     { pose proof (at_cur_len _ _ _ A) as SL. rewrite len_app in SL.
       assert (1 <= len (render_obj x lo)).
       { unfold render_obj. rewrite !len_app. destruct W as (W1 & _). rewrite digits_len. lia. }
       lia. }
     exists o, nx. split; [|split; [apply N.ltb_lt; unfold flen; lia|split]].
-    - apply off_get_In; [|exact I2]. apply NoDup_combine_fst. exact Wd.
+    - apply off_get_In; [|exact I2]. apply NoDup_combine_fst. exact ND.
     - unfold f. rewrite find_file_of by lia. rewrite EI. reflexivity.
-    - exact (wf_obj_simple _ _ W).
+    - exact (wf_obj_k_simple _ _ _ W).
   Qed.
 
   Lemma xstm_found :
     exists nx, Loader.find f (N.of_nat (len Bd)) =
-               Some (IXStm (xl_id X) E (Some (ORef (fst (d_root d)) (snd (d_root d)))) None, nx).
+               Some (IXStm (xl_id X) E (Some (ORef (fst root) (snd root))) None, nx).
   Proof.
     unfold f. rewrite find_file_of by (pose proof Bd_lt_V; lia).
-    destruct (wx_dict _ _ Wx) as (size & D).
+    destruct (xf_dict _ _ _ Wf) as (size & D).
     assert (A : at_cur V (len Bd) (render_obj (xl_id X, OStream (xl_dict X) (render_parts (xl_w0 X) (xl_w1 X) (xl_w2 X) (xparts objs X))) (xl_lo X) ++ post)).
     { rewrite Vx_shape. apply at_cur_mid. }
     assert (Wo : wf_obj_k (fun _ => True) (xl_id X, OStream (xl_dict X) (render_parts (xl_w0 X) (xl_w1 X) (xl_w2 X) (xparts objs X))) (xl_lo X)).
-    { eapply wf_obj_k_len; [|exact (wx_xobj _ _ Wx)]. rewrite !render_parts_len. unfold xparts. rewrite parts_rows_fill. reflexivity. }
+    { eapply wf_obj_k_len; [|exact (xf_xobj _ _ _ Wf)]. rewrite !render_parts_len. unfold xparts. rewrite parts_rows_fill. reflexivity. }
     assert (F : wf_parts (xl_w0 X) (xl_w1 X) (xl_w2 X) (xparts objs X)).
-    { apply wf_parts_fill; [exact ot_ok|exact (wx_wide _ _ Wx)|exact (wx_parts _ _ Wx)]. }
+    { apply wf_parts_fill; [exact ot_ok|exact (xf_wide _ _ _ Wf)|exact (xf_parts _ _ _ Wf)]. }
     assert (D' : xref_dict_ok (xl_dict X) size (Some (parts_index (xparts objs X))) (xl_w0 X) (xl_w1 X) (xl_w2 X)).
     { unfold xparts. rewrite parts_index_fill. exact D. }
-    destruct (item_at_xstm rel V (len Bd) (xl_id X) (xl_dict X) (xparts objs X) _ _ _ size (xl_lo X) post A Wo (wx_wide _ _ Wx) F D') as (nx & EI).
-    exists nx. rewrite EI, (wx_root _ _ Wx), (wx_prev _ _ Wx). f_equal. f_equal.
+    destruct (item_at_xstm rel V (len Bd) (xl_id X) (xl_dict X) (xparts objs X) _ _ _ size (xl_lo X) post A Wo (xf_wide _ _ _ Wf) F D') as (nx & EI).
+    exists nx. rewrite EI, (xf_root _ _ _ Wf), (xf_prev _ _ _ Wf). f_equal. f_equal.
     unfold xparts. rewrite parts_ents_fill, map_map. reflexivity.
   Qed.
 
-  Lemma abstract_xrefstm :
+  Lemma abstract_xframe :
     abstract_file rel (render_xrefstm objs X) = mkpdf true flen (Some (N.of_nat (len Bd))) f.
   Proof.
     assert (EV : exists r, V = kw_pdf ++ r).
     { exists (xl_hdr X ++ concat (xchunks objs X) ++ xobj ++ post). rewrite Vx_shape. unfold Bd, xbody, xhead. rewrite <- !app_assoc. reflexivity. }
     destruct EV as (r & EV).
     unfold abstract_file, render_xrefstm. fold V. rewrite EV.
-    rewrite (magic_found _ r (wx_garbage _ _ Wx)).
+    rewrite (magic_found _ r (xf_garbage _ _ _ Wf)).
     replace (skipn (len (xl_garbage X)) (xl_garbage X ++ kw_pdf ++ r)) with V
       by (rewrite EV; symmetry; replace (len (xl_garbage X)) with (len (xl_garbage X) + 0) by lia; apply skipn_app_len).
     destruct (header_found V r EV) as (c' & Eh). rewrite Eh.
     assert (Sx : find_startxref V = Some (N.of_nat (len Bd))).
-    { destruct (wx_seol _ _ Wx) as (S1 & S2). destruct (wx_sx _ _ Wx) as (X0 & X1 & X2).
+    { destruct (xf_seol _ _ _ Wf) as (S1 & S2). destruct (xf_sx _ _ _ Wf) as (X0 & X1 & X2).
       replace V with ((Bd ++ xobj) ++ kw_startxref ++ xl_seol X ++ digits (xl_sxw X) (N.of_nat (len Bd)) ++ xl_eeol X ++ kw_eof ++ xl_tail X).
-      - apply startxref_found; try assumption. exact (wx_eeol _ _ Wx). exact (wx_tail _ _ Wx).
+      - apply startxref_found; try assumption. exact (xf_eeol _ _ _ Wf). exact (xf_tail _ _ _ Wf).
       - rewrite Vx_shape. unfold post. rewrite <- !app_assoc. reflexivity. }
     rewrite Sx. reflexivity.
   Qed.
 
+  Lemma sx_lt_flen : (N.of_nat (len Bd) <? flen)%N = true.
+  Proof. apply N.ltb_lt. unfold flen. pose proof Bd_lt_V. lia. Qed.
+End XFrame.
+
+Lemma wf_obj_weaken K x lo : wf_obj_k K x lo -> wf_obj_k (fun _ => True) x lo.
+Proof.
+  unfold wf_obj_k. intros (A1 & A2 & A3 & A4 & A5 & A6 & A7 & A8 & A9 & A10 & A11 & A12 & W).
+  repeat (split; [assumption|]). destruct (snd x); try exact W.
+  destruct W as (B1 & B2 & B3 & B4 & B5 & _). repeat (split; [assumption|]). exact I.
+Qed.
+
+Section XrefStream.
+  Variables (rel : bool) (d : cdoc) (X : xlayout).
+  Hypothesis Wd : wf_doc d.
+  Hypothesis Wx : wf_xlayout d X.
+
+  Let objs := d_objs d.
+  Let V := render_xrefstm_view objs X.
+  Let ot := xot objs X.
+  Let f := file_of rel V.
+  Let flen := N.of_nat (len V).
+  Let E : list Loader.xent := List.map (fun e => conv_ent (fillx ot e)) (parts_ents (xl_parts X)).
+  Let sx := N.of_nat (len (xbody objs X)).
+
+  Lemma Hwf_all : Forall (fun p => wf_obj_k (fun _ => True) (fst p) (snd p)) (combine objs (xl_objs X)).
+  Proof. eapply Forall_impl; [|exact (wx_objs _ _ Wx)]. intros p. apply wf_obj_weaken. Qed.
+
+  Lemma x_obj_found x : In x objs ->
+    exists o nx, off_get ot (fst x) = Some (N.of_nat o) /\ (N.of_nat o <? flen)%N = true /\
+                 Loader.find f (N.of_nat o) = Some (IObj (fst x) (snd x), nx) /\ simple (IObj (fst x) (snd x)).
+  Proof.
+    intros Hin. destruct (fobj_found rel objs X (wx_len _ _ Wx) Hwf_all Wd x Hin) as (o & nx & G & Lo & F & S).
+    exists o, nx. split; [exact G|]. split; [exact Lo|]. split; [|exact S]. unfold f, V. rewrite F. f_equal. f_equal.
+    destruct (In_combine_l_ex objs (xl_objs X) x (wx_len _ _ Wx) Hin) as (lo & I1).
+    pose proof (In_combine_Forall _ _ _ _ (wx_objs _ _ Wx) I1) as W. destruct x as [id v]. cbn [fst snd] in *.
+    assert (Dv : (exists dd p, v = OStream dd p) \/ (forall dd p, v <> OStream dd p)).
+    { destruct v; try (right; intros; discriminate). left. eauto. }
+    destruct Dv as [(dd & p & ->)|Dv]; [apply obj_item_plain; apply W|apply obj_item_nostream, Dv].
+  Qed.
+
+  Lemma abstract_xrefstm :
+    abstract_file rel (render_xrefstm objs X) = mkpdf true flen (Some sx) f.
+  Proof. exact (abstract_xframe rel objs (d_root d) X (wx_frame _ _ Wx) (wx_len _ _ Wx)). Qed.
+
   (* the computed abstraction is a C03 layout of the document, the section being a cross-reference stream *)
   Theorem xrefstm_layout_of : layout_of objs (d_root d) (abstract_file rel (render_xrefstm objs X)) E.
   Proof.
-    rewrite abstract_xrefstm. destruct xstm_found as (nx & TF).
+    rewrite abstract_xrefstm. destruct (xstm_found rel objs (d_root d) X (wx_frame _ _ Wx) (wx_len _ _ Wx)) as (nx & TF).
     pose proof (G_inuse f flen objs ot (parts_ents (xl_parts X)) x_obj_found (wx_inuse _ _ Wx)) as GI.
     pose proof (G_status ot (parts_ents (xl_parts X)) (wx_nostm _ _ Wx)) as GS.
     constructor; cbn [p_magic p_startxref p_flen p_file].
     - reflexivity.
-    - exists (N.of_nat (len Bd)). split; [reflexivity|]. split; [apply N.ltb_lt; unfold flen; pose proof Bd_lt_V; lia|].
+    - exists sx. split; [reflexivity|]. split; [exact (sx_lt_flen objs X (wx_len _ _ Wx))|].
       eapply SA_stream. exact TF.
     - intros e ofs Hin St. apply first_per_key_incl in Hin.
       destruct (GI e ofs Hin St) as (v & nx' & _ & Lo & F & S).
@@ -321,10 +379,10 @@ Section XrefStream.
   Proof.
     pose proof xrefstm_layout_of as LO. unfold load_bytes.
     set (p := abstract_file rel (render_xrefstm objs X)) in *.
-    destruct LO as [Hm (sx & Hs & Hb & SA) Hi Hmem Hnd Hobjs Hex].
+    destruct LO as [Hm (sx0 & Hs & Hb & SA) Hi Hmem Hnd Hobjs Hex].
     set (rt := ORef (fst (d_root d)) (snd (d_root d))) in *.
-    assert (AE : all_ents [(sx, E, Some rt)] = E) by (unfold all_ents; cbn; apply app_nil_r).
-    destruct (load_history p [(sx, E, Some rt)] (fst (d_root d)) (snd (d_root d)) sx Hm Hs Hb) as (c & L & K).
+    assert (AE : all_ents [(sx0, E, Some rt)] = E) by (unfold all_ents; cbn; apply app_nil_r).
+    destruct (load_history p [(sx0, E, Some rt)] (fst (d_root d)) (snd (d_root d)) sx0 Hm Hs Hb) as (c & L & K).
     - apply SS_last; assumption.
     - repeat constructor. intros [].
     - reflexivity.
